@@ -66,7 +66,8 @@ def follow_up(s, circuit):
         problems.append("serialize: %s" % type(e).__name__)
         return problems
     within = True
-    for el in circuit.get_elements(recursive=True):
+    # every element, those inside containers' sub-circuits included (get_elements(recursive=True) stops at containers)
+    for el in circuit.generate_element_identifiers(running=True).keys():
         v, lo, hi = el.get_values(), el.get_lower_limits(), el.get_upper_limits()
         for k in v:
             if not (lo[k] <= v[k] <= hi[k]) or v[k] in (float("inf"), float("-inf")):
